@@ -19,6 +19,8 @@ type vxSym struct {
 	Curve int `json:"curve"`
 	Rpm   int `json:"rpm"`
 	DtMs  int `json:"dtMs"`
+	// CurveErr: the curve evaluation fails in this cycle (e.g. the sensor read of a PID curve failed)
+	CurveErr bool `json:"curveErr,omitempty"`
 }
 
 type vxCycCase struct {
@@ -51,8 +53,13 @@ func (fx *vxFix) vxCycle(s vxSym) vxCycObs {
 			fx.ctl.measureRpm(fx.fan)
 		}
 		fx.curve.Value = s.Curve
+		fx.curve.Err = nil
+		if s.CurveErr {
+			fx.curve.Err = errors.New("vx: sensor read failed")
+		}
 		n := len(fx.fs.Log)
 		o.Err = fx.ctl.UpdateFanSpeed()
+		fx.curve.Err = nil
 		for _, op := range fx.fs.Log[n:] {
 			if op.Path == fx.dev.Pwm && op.Kind != "read" {
 				o.Writes = append(o.Writes, op.Value)
@@ -120,6 +127,13 @@ func vxCycOracle(prop string, fx *vxFix, h *vxHist, s vxSym, o vxCycObs) [][2]st
 		return v
 	}
 	if o.Err != nil && !o.Stalled {
+		if s.CurveErr {
+			// the evaluation error is reported to the caller (Run then restores the fan and stops); nothing may be written
+			if len(o.Writes) > 0 {
+				add(prop+" PWM written in a cycle whose curve evaluation failed", fmt.Sprintf("wrote %v although the cycle returned %v", o.Writes, o.Err))
+			}
+			return v
+		}
 		add(prop+" unexpected control error", o.Err.Error())
 		return v
 	}
@@ -201,7 +215,11 @@ func vxRLE(syms []vxSym) string {
 		for j < len(syms) && syms[j] == syms[i] {
 			j++
 		}
-		fmt.Fprintf(&b, "(%d,%d,%d)x%d ", syms[i].Curve, syms[i].Rpm, syms[i].DtMs, j-i)
+		e := ""
+		if syms[i].CurveErr {
+			e = ",curve-error"
+		}
+		fmt.Fprintf(&b, "(%d,%d,%d%s)x%d ", syms[i].Curve, syms[i].Rpm, syms[i].DtMs, e, j-i)
 		i = j
 	}
 	return b.String()
@@ -262,8 +280,8 @@ func vxStepCyc(prop string, fx *vxFix, h *vxHist, s vxSym, path func() []vxSym) 
 	h.PrevReq, h.HaveReq = o.Req, o.Req != -999
 	h.PrevMin = o.FanMin
 	h.PrevR = o.Raises
-	if o.Stalled || o.Panic != "" {
-		h.Terminal = true
+	if o.Stalled || o.Panic != "" || (o.Err != nil && s.CurveErr) {
+		h.Terminal = true // Run stops regulating this fan after a control error
 	}
 	return
 }
@@ -297,10 +315,12 @@ func vxCycAlphabet(prop string, cfg vxCfg) []vxSym {
 	for _, c := range curvesV {
 		for _, r := range rpms {
 			for _, d := range dts {
-				a = append(a, vxSym{c, r, d})
+				a = append(a, vxSym{Curve: c, Rpm: r, DtMs: d})
 			}
 		}
 	}
+	// a cycle in which the curve cannot be evaluated
+	a = append(a, vxSym{Curve: 128, Rpm: 1000, DtMs: 200, CurveErr: true})
 	return a
 }
 
